@@ -100,6 +100,7 @@ var bodyFiles = map[string]*facts.BodyFile{
 		Imports:   []string{"ScrapliModel.Bytes"},
 		Namespace: "Scrapli.Gen.Bodies.Response",
 		Fns: []*facts.FnSpec{
+			{Dir: "util", Name: "ByteContainsAny", Lean: "byteContainsAny"},
 			{Dir: "response", Recv: "NetconfResponse", Name: "record1dot0", Lean: "record1dot0",
 				Doc:     "`raw` = `r.RawResult`; state: `result` = `r.Result`.",
 				Binders: "(raw : Bytes)",
@@ -114,6 +115,63 @@ var bodyFiles = map[string]*facts.BodyFile{
 					"errNetconf1Dot1ParseError": {AnyArgs: true, Ret: []string{"error"}, Tmpl: "(some \"errNetconf1Dot1Error\" : Go.Error)"},
 				},
 				State: []facts.StateVar{{Key: "recv.Result", Lean: "result", Ty: "bytes"}}},
+			{Dir: "response", Recv: "NetconfResponse", Name: "record1dot1", Lean: "record1dot1",
+				Doc: "`input` = `r.Input`, `errText` = `error.Error`; state: `result` = `r.Result`, `failed` = `r.Failed` " +
+					"(`*OperationError` as the triple input / output / error string).",
+				Binders: "(fuel : Nat) (errText : Go.Error → Bytes) (input raw : Bytes)", BinderArgs: "fuel errText input raw",
+				Partial: true,
+				Vals:    map[string]facts.Val{"recv.Input": {Lean: "input", Ty: "bytes"}},
+				Funcs:   map[string]facts.LibFn{"err.Error": {Args: []string{}, Ret: []string{"bytes"}, Tmpl: "(errText err)"}},
+				Steps: map[string]facts.Step{
+					"%v := recv.record1dot1Chunks()": {BindTy: "error", Pre: []string{"match record1dot1Chunks fuel raw result with",
+						"| none => none", "| some (%v, result) => ("}, Post: ")"},
+				},
+				Structs: map[string]facts.StructLit{
+					"&OperationError": {Fields: map[string]string{"Input": "bytes", "Output": "bytes", "ErrorString": "bytes"},
+						Tmpl: "(some (%Input, %Output, %ErrorString))", Ty: "opaque:Option (Bytes × Bytes × Bytes)"},
+				},
+				State: []facts.StateVar{
+					{Key: "recv.Result", Lean: "result", Ty: "bytes"},
+					{Key: "recv.Failed", Lean: "failed", Ty: "opaque:Option (Bytes × Bytes × Bytes)"},
+				}},
+			{Dir: "response", Recv: "NetconfResponse", Name: "Record", Lean: "record",
+				Doc: "`input` = `r.Input`, `fwc` = `r.FailedWhenContains`, `version` = `r.NetconfVersion`, `findErr` / `findAllErr` = " +
+					"`rpcErrors.Find` / `rpcSingleErrors.FindAll(·, -1)`; state: raw / result / failed and the two message lists. " +
+					"The two time stamps are not modelled.",
+				Binders: "(fuel : Nat) (errText : Go.Error → Bytes) (input : Bytes) (fwc : List Bytes) (version : Bytes) " +
+					"(findErr : Bytes → Bytes) (findAllErr : Bytes → List Bytes)",
+				BinderArgs: "fuel errText input fwc version findErr findAllErr",
+				Partial:    true,
+				Vals: map[string]facts.Val{
+					"recv.Input":              {Lean: "input", Ty: "bytes"},
+					"recv.FailedWhenContains": {Lean: "fwc", Ty: "list"},
+					"recv.NetconfVersion":     {Lean: "version", Ty: "bytes"},
+					"recv.Failed == nil":      {Lean: "failed.isNone", Ty: "bool"},
+					"getNetconfPatterns()":    {Lean: "()", Ty: "unit"},
+				},
+				Funcs: map[string]facts.LibFn{
+					"util.ByteContainsAny":                 {Args: []string{"bytes", "list"}, Ret: []string{"bool"}, Tmpl: "(byteContainsAny %0 %1)"},
+					"patterns.rpcErrors.Find":              {Args: []string{"bytes"}, Ret: []string{"bytes"}, Tmpl: "(findErr %0)"},
+					"getNetconfPatterns().rpcErrors.Find":  {Args: []string{"bytes"}, Ret: []string{"bytes"}, Tmpl: "(findErr %0)"},
+					"patterns.rpcSingleErrors.FindAll":     {Args: []string{"bytes", "int"}, Ret: []string{"list"}, Tmpl: "(findAllErr %0)"},
+				},
+				Steps: map[string]facts.Step{
+					"recv.record1dot0()": {Pre: []string{"let result := record1dot0 raw result"}},
+					"recv.record1dot1()": {Pre: []string{"match record1dot1 fuel errText input raw result failed with",
+						"| none => none", "| some (result, failed) => ("}, Post: ")"},
+				},
+				Structs:      map[string]facts.StructLit{
+					"&OperationError": {Fields: map[string]string{"Input": "bytes", "Output": "bytes", "ErrorString": "bytes"},
+						Tmpl: "(some (%Input, %Output, %ErrorString))", Ty: "opaque:Option (Bytes × Bytes × Bytes)"},
+				},
+				IgnoreAssign: []string{"recv.EndTime", "recv.ElapsedTime"},
+				State: []facts.StateVar{
+					{Key: "recv.RawResult", Lean: "raw", Ty: "bytes"},
+					{Key: "recv.Result", Lean: "result", Ty: "bytes"},
+					{Key: "recv.Failed", Lean: "failed", Ty: "opaque:Option (Bytes × Bytes × Bytes)"},
+					{Key: "recv.ErrorMessages", Lean: "errorMessages", Ty: "list"},
+					{Key: "recv.WarningErrorMessages", Lean: "warningMessages", Ty: "list"},
+				}},
 		},
 	},
 	// C05: channel/channel.go
@@ -154,7 +212,18 @@ var bodyFiles = map[string]*facts.BodyFile{
 	// C03: driver/netconf/message.go
 	"BodiesRequest.lean": {
 		Namespace: "Scrapli.Gen.Bodies.Request",
+		Imports:   []string{"ScrapliModel.Netconf.Request"},
 		Fns: []*facts.FnSpec{
+			{Dir: "driver/netconf", Name: "ForceSelfClosingTags", Lean: "forceSelfClosingTags",
+				Doc: "`findAllSub b` = `emptyTags.FindAllSubmatch(b, -1)` (full match and the three groups of every match); " +
+					"`bytes.ReplaceAll` is the model's `Req.replaceAll` (non-empty `old`).",
+				Binders: "(findAllSub : Bytes → List (List Bytes))", BinderArgs: "findAllSub",
+				Vals:    map[string]facts.Val{"getNetconfPatterns()": {Lean: "()", Ty: "unit"}},
+				Funcs: map[string]facts.LibFn{
+					"ncPatterns.emptyTags.FindAllSubmatch": {Args: []string{"bytes", "int"}, Ret: []string{"list2"}, Tmpl: "(findAllSub %0)"},
+					"bytes.ReplaceAll": {Args: []string{"bytes", "bytes", "bytes"}, Ret: []string{"bytes"},
+						Tmpl: "(Netconf.Req.replaceAll %1 %2 (List.length %0) %0)"},
+				}},
 			{Dir: "driver/netconf", Recv: "message", Name: "serialize", Lean: "serialize",
 				Doc: "`body` = the result of `xml.Marshal(m)` (taken to succeed), `selfCloseF` = `ForceSelfClosingTags`; " +
 					"state: the two fields of the returned `*serializedInput` (the pointer itself is `()`).",
@@ -176,6 +245,22 @@ var bodyFiles = map[string]*facts.BodyFile{
 		Imports:   []string{"ScrapliModel.Priv"},
 		Namespace: "Scrapli.Gen.Bodies.Priv",
 		Fns: []*facts.FnSpec{
+			{Dir: "util", Name: "StringContainsAny", Lean: "stringContainsAny"},
+			{Dir: "util", Name: "StringSliceContains", Lean: "stringSliceContains"},
+			{Dir: "driver/network", Recv: "Driver", Name: "determineCurrentPriv", Lean: "determineCurrentPriv",
+				Doc: "`lvs` = the values of the map `d.PrivilegeLevels` in the order this iteration yields them (arbitrary: the " +
+					"theorems quantify over it), `notContains l` = `l.NotContains`, `patMatch l` = `l.patternRe.MatchString`.",
+				Binders:    "(lvs : List Priv.Level) (notContains : Priv.Level → List Bytes) (patMatch : Priv.Level → Bytes → Bool)",
+				BinderArgs: "lvs notContains patMatch", Captures: []string{"priv"},
+				Vals: map[string]facts.Val{
+					"recv.PrivilegeLevels": {Lean: "lvs", Ty: "olist:Priv.Level"},
+					"priv.NotContains":     {Lean: "(notContains priv)", Ty: "list"},
+					"priv.Name":            {Lean: "priv.name", Ty: "bytes"},
+				},
+				Funcs: map[string]facts.LibFn{
+					"util.StringContainsAny":      {Args: []string{"bytes", "list"}, Ret: []string{"bool"}, Tmpl: "(stringContainsAny %0 %1)"},
+					"priv.patternRe.MatchString": {Args: []string{"bytes"}, Ret: []string{"bool"}, Tmpl: "(patMatch priv %0)"},
+				}},
 			{Dir: "driver/network", Recv: "Driver", Name: "processAcquirePriv", Lean: "processAcquirePriv",
 				Doc: "`L` = `d.PrivilegeLevels` (association list keyed by `Name`), `possible` / `detErr` = what " +
 					"`determineCurrentPriv(currentPrompt)` returned, `path cur tgt` = `buildPrivChangeMap(cur, tgt, nil)`; " +
@@ -234,7 +319,63 @@ var bodyFiles = map[string]*facts.BodyFile{
 				}},
 		},
 	},
-	// C15: transport/telnet.go — see gen_c15.go (the FnSpec depends on where the source keeps ctrlBuf)
+	// C13: util/strings.go, response/response.go
+	"BodiesFailed.lean": {
+		Imports:   []string{"ScrapliModel.Failed"},
+		Namespace: "Scrapli.Gen.Bodies.Failed",
+		Fns: []*facts.FnSpec{
+			{Dir: "util", Name: "StringContainsAnySubStrs", Lean: "stringContainsAnySubStrs"},
+			{Dir: "response", Recv: "Response", Name: "Record", Lean: "record",
+				Doc: "`input` = `r.Input`, `fwc` = `r.FailedWhenContains`; state: `raw` = `r.RawResult`, `result` = `r.Result`, " +
+					"`failed` = `r.Failed`. The two time stamps are not modelled.",
+				Binders: "(input : Bytes) (fwc : List Bytes)", BinderArgs: "input fwc",
+				Vals: map[string]facts.Val{
+					"recv.Input":              {Lean: "input", Ty: "bytes"},
+					"recv.FailedWhenContains": {Lean: "fwc", Ty: "list"},
+				},
+				Funcs: map[string]facts.LibFn{
+					"util.StringContainsAnySubStrs": {Args: []string{"bytes", "list"}, Ret: []string{"bytes"}, Tmpl: "(stringContainsAnySubStrs %0 %1)"},
+				},
+				Structs: map[string]facts.StructLit{
+					"&OperationError": {Fields: map[string]string{"Input": "bytes", "Output": "bytes", "ErrorString": "bytes"},
+						Tmpl: "(some (Failed.Failure.op { input := %Input, output := %Output, errStr := %ErrorString }))",
+						Ty:   "opaque:Option Failed.Failure"},
+				},
+				IgnoreAssign: []string{"recv.EndTime", "recv.ElapsedTime"},
+				State: []facts.StateVar{
+					{Key: "recv.RawResult", Lean: "raw", Ty: "bytes"},
+					{Key: "recv.Result", Lean: "result", Ty: "bytes"},
+					{Key: "recv.Failed", Lean: "failed", Ty: "opaque:Option Failed.Failure"},
+				}},
+		},
+	},
+	// C08: driver/netconf/read.go
+	"BodiesStore.lean": {
+		Namespace: "Scrapli.Gen.Bodies.Store",
+		Fns: []*facts.FnSpec{
+			{Dir: "driver/netconf", Name: "getID", Lean: "getID",
+				Doc: "`match` = what `FindSubmatch` returned (nil = no match)."},
+		},
+	},
+	// C15: transport/telnet.go
+	"BodiesTelnet.lean": {
+		Imports:   []string{"ScrapliModel.Telnet"},
+		Namespace: "Scrapli.Gen.Bodies.Telnet",
+		Fns: []*facts.FnSpec{
+			{Dir: "util", Name: "ByteIsAny", Lean: "byteIsAny"},
+			{Dir: "transport", Recv: "Telnet", Name: "handleControlCharResponse", Lean: "handleControlCharResponse",
+				Doc: "State: `data` = `t.initialBuf`, `replies` = the byte strings passed to `t.c.Write`, in order " +
+					"(every write is taken to succeed: it returns `len(b), nil`).",
+				State: []facts.StateVar{
+					{Key: "recv.initialBuf", Lean: "data", Ty: "bytes"},
+					{Key: "«writes to recv.c»", Lean: "replies", Ty: "list"},
+				},
+				Effects: map[string]facts.Effect{
+					"recv.c.Write": {State: "replies", ArgTy: "bytes",
+						Ret: []facts.Val{{Lean: "(Go.len %0)", Ty: "int"}, {Lean: "(none : Go.Error)", Ty: "error"}}},
+				}},
+		},
+	},
 	// C18: driver/generic/sendwithcallbacks.go
 	"BodiesCallbacks.lean": {
 		Imports:   []string{"ScrapliModel.Callbacks"},
